@@ -109,6 +109,22 @@ int main(void) {
             if (isStatic) printf(" need=%zu\n", need); else printf(" peak=%zu sizeof=%zu live=%zu est=%zu\n", g_peak, szof, g_live, ZSTD_estimateDStreamSize((size_t)1 << W));
             if (!isStatic) { ZSTD_freeDCtx(d); if (cnt_leaks()) printf("LEAK\n"); cnt_release_leaks(); }
             free(in); free(out); free(mem);
+        } else if (!strcmp(op, "sdict")) {
+            /* sdict <level> <dictSize> <byRef 0|1> <seed> : static CDict / DDict in blocks of exactly ZSTD_estimateCDictSize_advanced / ZSTD_estimateDDictSize, then a round trip through them */
+            int level = atoi(strtok(NULL, " ")); size_t dn = (size_t)strtoull(strtok(NULL, " "), NULL, 10); int byRef = atoi(strtok(NULL, " ")); unsigned long long seed = strtoull(strtok(NULL, " "), NULL, 10);
+            unsigned char* dict = (unsigned char*)malloc(dn ? dn : 1); size_t n = 20000; unsigned char* src = (unsigned char*)malloc(n); size_t cap = ZSTD_compressBound(n); unsigned char* dst = (unsigned char*)malloc(cap); unsigned char* back = (unsigned char*)malloc(n);
+            ZSTD_compressionParameters cp = ZSTD_getCParams(level, 0, dn); ZSTD_dictLoadMethod_e dlm = byRef ? ZSTD_dlm_byRef : ZSTD_dlm_byCopy;
+            size_t cneed = ZSTD_estimateCDictSize_advanced(dn, cp, dlm), dneed = ZSTD_estimateDDictSize(dn, dlm); void* cm = malloc(cneed + 8); void* dm = malloc(dneed + 8);
+            const ZSTD_CDict* cd; const ZSTD_DDict* dd; const char* res = "ok";
+            gen_data(dict, dn, seed); gen_data(src, n, seed + 7); if (dn >= 64) memcpy(src + 100, dict + dn / 2, dn / 2 < 3000 ? dn / 2 : 3000);
+            cd = ZSTD_initStaticCDict((void*)(((size_t)cm + 7) & ~(size_t)7), cneed, dict, dn, dlm, ZSTD_dct_auto, cp);
+            dd = ZSTD_initStaticDDict((void*)(((size_t)dm + 7) & ~(size_t)7), dneed, dict, dn, dlm, ZSTD_dct_auto);
+            if (!cd) res = "FAIL initStaticCDict returned NULL in a block of the estimated size"; else if (!dd) res = "FAIL initStaticDDict returned NULL in a block of the estimated size";
+            else { ZSTD_CCtx* c = ZSTD_createCCtx(); ZSTD_DCtx* d = ZSTD_createDCtx(); size_t cs = ZSTD_compress_usingCDict(c, dst, cap, src, n, cd);
+                if (ZSTD_isError(cs)) res = "FAIL compress_usingCDict"; else { size_t dr = ZSTD_decompress_usingDDict(d, back, n, dst, cs, dd); if (ZSTD_isError(dr) || dr != n || memcmp(back, src, n)) res = "FAIL round trip through the static dictionaries"; }
+                ZSTD_freeCCtx(c); ZSTD_freeDCtx(d); }
+            printf("%s cneed=%zu dneed=%zu\n", res, cneed, dneed);
+            free(dict); free(src); free(dst); free(back); free(cm); free(dm);
         } else if (!strcmp(op, "csizeof")) {
             /* csizeof <id=val,...|-> <size> <seed> <dictSize> : ZSTD_sizeof_* against the bytes live in a counting allocator */
             char* spec = strtok(NULL, " "); size_t n = (size_t)strtoull(strtok(NULL, " "), NULL, 10); unsigned long long seed = strtoull(strtok(NULL, " "), NULL, 10); size_t dn = (size_t)strtoull(strtok(NULL, " "), NULL, 10);
